@@ -403,4 +403,73 @@ theorem blocks_layout {ms : Graph} {n : Int} (hw : ms.WF) (hn : ms.nodeList.Perm
     have := (mem_range_iff n p.1).1 (hn.mem_iff.1 (Graph.mem_nodeList_of_get? h1))
     omega
 
+/-! ### 3c. sum formula -/
+
+/-- the element symbols of the atoms, in node order -/
+theorem symbolsOf_eq {m : Graph} (hw : m.WF) :
+    symbolsOf m = m.nodeList.filterMap (fun a => (m.attr a "element_symbol").map Val.asStr) := by
+  unfold symbolsOf
+  rw [Contracts.Partition.values_getNodeAttributes, Graph.nodeList, Dict.keys, List.filterMap_map, List.map_filterMap]
+  apply List.filterMap_congr
+  intro p hp
+  have h1 : m.node.get? p.1 = some p.2 := Dict.get?_of_mem_items hw.node_wf hp
+  simp only [Function.comp, Graph.attr, h1, Option.bind_some]
+
+/-- relabelling does not change the multiset of element symbols -/
+theorem symbolsOf_relabel {π : Int → Int} {g h : Graph} (r : Graph.IsRelabel π g h) (hg : g.WF) (hh : h.WF) :
+    (symbolsOf h).Perm (symbolsOf g) := by
+  rw [symbolsOf_eq hg, symbolsOf_eq hh]
+  refine (r.nodes.filterMap _).trans ?_
+  rw [List.filterMap_map]
+  rw [List.filterMap_congr]
+  intro a ha
+  simp only [Function.comp, r.attrs a ha]
+
+theorem hillOrder_nodup (syms : List Str) : (hillOrder syms).Nodup :=
+  (hillOrder_perm syms).nodup_iff.2 (List.nodup_dedup syms)
+
+theorem mem_hillOrder (syms : List Str) (s : Str) : s ∈ hillOrder syms ↔ s ∈ syms := by
+  rw [(hillOrder_perm syms).mem_iff, List.mem_dedup]
+
+/-- the symbols other than C and H, alphabetically -/
+def restSorted (syms : List Str) : List Str := sorted (syms.dedup.filter (fun s => s ≠ py!"C" ∧ s ≠ py!"H"))
+
+theorem restSorted_strict (syms : List Str) : (restSorted syms).Pairwise (fun a b => POrd.lt a b = true) :=
+  sorted_strict_of_nodup ((List.nodup_dedup syms).filter _)
+
+theorem mem_restSorted (syms : List Str) (s : Str) : s ∈ restSorted syms ↔ s ∈ syms ∧ s ≠ py!"C" ∧ s ≠ py!"H" := by
+  simp [restSorted]
+
+/-- Hill order with carbon: C, then H if present, then the rest alphabetically -/
+theorem hillOrder_carbon (syms : List Str) (hc : py!"C" ∈ syms) :
+    hillOrder syms = py!"C" :: ((if py!"H" ∈ syms then [py!"H"] else []) ++ restSorted syms) := by
+  unfold hillOrder restSorted
+  simp only [List.mem_dedup, hc, if_true]
+
+/-- Hill order without carbon: all symbols alphabetically -/
+theorem hillOrder_no_carbon (syms : List Str) (hc : py!"C" ∉ syms) :
+    hillOrder syms = sorted syms.dedup ∧ (hillOrder syms).Pairwise (fun a b => POrd.lt a b = true) := by
+  have : hillOrder syms = sorted syms.dedup := by
+    unfold hillOrder
+    simp only [List.mem_dedup, hc, if_false]
+  rw [this]
+  exact ⟨rfl, sorted_dedup_strict syms⟩
+
+/-- Layout of the sum formula: `sumFormulaSpec m` lists every element symbol occurring in the molecule
+exactly once (in Hill order, see `hillOrder_carbon` / `hillOrder_no_carbon`), each followed by the number
+of atoms having that symbol when that number exceeds 1; the counts add up to the number of atoms that
+have a symbol. -/
+theorem formula_layout (m : Graph) :
+    sumFormulaSpec m = ((hillOrder (symbolsOf m)).map (fun s => renderElem s ((symbolsOf m).count s))).flatten ∧
+    (hillOrder (symbolsOf m)).Nodup ∧
+    (∀ s, s ∈ hillOrder (symbolsOf m) ↔ s ∈ symbolsOf m) ∧
+    (∀ s ∈ hillOrder (symbolsOf m), 1 ≤ (symbolsOf m).count s) ∧
+    ((hillOrder (symbolsOf m)).map (fun s => (symbolsOf m).count s)).sum = (symbolsOf m).length := by
+  refine ⟨rfl, hillOrder_nodup _, mem_hillOrder _, ?_, ?_⟩
+  · intro s hs
+    exact List.count_pos_iff.2 ((mem_hillOrder _ s).1 hs)
+  · rw [((hillOrder_perm (symbolsOf m)).map _).sum_eq]
+    simp only [count_inst]
+    exact List.sum_map_count_dedup_eq_length (symbolsOf m)
+
 end Contracts.Layout
